@@ -1,7 +1,7 @@
 #!/bin/bash
-# usage: seedtest.sh <seed-id> <worktree> <prop> [<prop>...]
+# usage: seedtest.sh <seed-id> <worktree>
 # confirms a seeded change in its scratch worktree (tests pass with it, demo fails with it and passes without it),
-# stores it under /verif/seeded/<id>/, then applies it to /repo, runs the quick checks of the given properties, and undoes it.
+# stores it under /verif/seeded/<id>/, then runs checks/seed_all.py <id> (scratch copy of /repo/eyecite + patch, quick check of the seed's property).
 set -u
 ID=$1; WT=$2; shift 2
 D=/verif/seeded/$ID; mkdir -p $D
@@ -15,15 +15,6 @@ PYTHONPATH=$WT /venv/bin/python _seed/demo.py >/tmp/seed_demo_without.txt 2>&1; 
 git apply _seed/patch.diff
 echo "tests with change: $T_WITH"; echo "demo with change: exit $D_WITH ; without: exit $D_WITHOUT"
 cd /verif
-git -C /repo apply $D/patch.diff || { echo "patch does not apply to /repo"; exit 2; }
-RES=""
-for P in "$@"; do
-  if [ "$P" = "C13" ]; then CMD="python3-vt /verif/checks/c13.py --tier quick"; else CMD="python3-vt -m pyvc.check $P --tier quick"; fi
-  OUT=$($CMD 2>&1 | grep -v WARNING); RC=$?
-  echo "--- $P exit=$(echo "$OUT" | tail -1 | grep -c xxxx) "; echo "$OUT" | grep -E "VIOLATION|^\[C|undecided:|binding|unsupported" | cut -c1-220 | head -12
-done
-git -C /repo checkout -q -- .
-git -C /verif checkout -q -- evidence 2>/dev/null
 python3 - <<PY
 import json
 p="$D/meta.json"
@@ -32,3 +23,5 @@ except Exception: m={}
 m["confirmed_by_main"]={"tests_with_change":"$T_WITH","demo_exit_with_change":$D_WITH,"demo_exit_without_change":$D_WITHOUT}
 json.dump(m,open(p,"w"),indent=1)
 PY
+
+python3-vt /verif/checks/seed_all.py $ID
